@@ -52,6 +52,18 @@ type blockOp struct {
 	Restart bool     `json:"restart,omitempty"` // restart the restarting replica before this block
 	Export  string   `json:"export,omitempty"`  // C12: "asis" = export/import round trip after this block
 	Genesis string   `json:"genesis,omitempty"` // first op only: genesis variant the replicas are built from ("" = default)
+	Idle    int      `json:"idle,omitempty"`    // number of empty blocks (same time step) that follow this block
+}
+
+// expandIdle turns a block followed by op.Idle empty blocks into the list of single blocks.
+func expandIdle(op blockOp) []blockOp {
+	idle := op.Idle
+	op.Idle = 0
+	out := []blockOp{op}
+	for i := 0; i < idle; i++ {
+		out = append(out, blockOp{Dt: op.Dt})
+	}
+	return out
 }
 
 const (
@@ -77,6 +89,7 @@ type hBinding struct {
 	Svc      string
 	Provider int
 	Price    int64
+	Owner    int // the account that bound the provider (and signs every later change of the binding)
 }
 type hCtx struct {
 	ID       string
@@ -124,7 +137,7 @@ type world struct {
 	msgFail    map[string]int
 	// counters of the rarer shapes (classes shared by the C11/C12/C13 machines)
 	htltCreated, htltClaimed, oracleRandom, seedProviders, timePromoBindings int
-	discardedAfterExec, historyShortened                                       int
+	discardedAfterExec, historyShortened, foreignProviders                     int
 }
 
 // shapeClasses names the rarer shapes this history contained (accepted transactions only).
@@ -142,6 +155,7 @@ func (w *world) shapeClasses() []string {
 	add(w.timePromoBindings > 0, "binding-with-time-promotion")
 	add(w.discardedAfterExec > 0, "tx-executed-then-discarded")
 	add(w.historyShortened > 0, "feed-history-length-edited")
+	add(w.foreignProviders > 0, "binding-owner-is-not-provider")
 	return cl
 }
 
@@ -155,6 +169,9 @@ type hist struct {
 	rich int // users 0..rich-1 hold funds
 	// dueBias (C13): prefer operations on objects that fall due in the block being built.
 	dueBias bool
+	// maxIdle > 0: a block is sometimes followed by a stretch of up to maxIdle empty blocks, so that histories reach
+	// heights far from where their objects were created (HTLT expiry is >= 50 blocks away)
+	maxIdle int
 }
 
 func (h *hist) addr(i int) string { return h.n.Users[i].Addr.String() }
@@ -214,6 +231,13 @@ func (h *hist) nextBlock(t *rapid.T, maxTxs int) blockOp {
 			tx.Msgs = append(tx.Msgs, h.enc(&banktypes.MsgSend{FromAddress: h.addr(tx.User), ToAddress: h.addr(0), Amount: coins("nosuchcoin", 1)})...)
 		}
 		op.Txs = append(op.Txs, tx)
+	}
+	if h.maxIdle > 0 && rapid.IntRange(0, 9).Draw(t, "idle?") == 0 {
+		if rapid.IntRange(0, 2).Draw(t, "idlek") == 0 {
+			op.Idle = rapid.IntRange(1, h.maxIdle).Draw(t, "idle")
+		} else {
+			op.Idle = rapid.IntRange(1, 6).Draw(t, "idle")
+		}
 	}
 	return op
 }
@@ -631,7 +655,12 @@ func (h *hist) nextTx(t *rapid.T) (txSpec, bool) {
 				pricing += `,"promotions_by_volume":[{"volume":2,"discount":"0.5"}]`
 			}
 			pricing += "}"
-			return txSpec{u, h.enc(&servicetypes.MsgBindService{ServiceName: svc, Provider: me, Deposit: coins("stake", 25000+int64(price)*1000), Pricing: pricing, QoS: uint64(rapid.IntRange(1, 3).Draw(t, "qos")), Options: "{}", Owner: me})}, true
+			prov := me
+			if rapid.IntRange(0, 2).Draw(t, "foreignprov") == 0 {
+				// an owner binds another account as provider: owner and provider indexes are then different things
+				prov = h.addr(h.user(t, "prov"))
+			}
+			return txSpec{u, h.enc(&servicetypes.MsgBindService{ServiceName: svc, Provider: prov, Deposit: coins("stake", 25000+int64(price)*1000), Pricing: pricing, QoS: uint64(rapid.IntRange(1, 3).Draw(t, "qos")), Options: "{}", Owner: me})}, true
 		case a <= 4:
 			b := pick(t, "binding", w.bindings)
 			var provs []string
@@ -723,18 +752,18 @@ func (h *hist) nextTx(t *rapid.T) (txSpec, bool) {
 		case a == 9:
 			b := pick(t, "binding", w.bindings)
 			if rapid.Bool().Draw(t, "withdraw") {
-				return txSpec{b.Provider, h.enc(&servicetypes.MsgWithdrawEarnedFees{Owner: h.addr(b.Provider), Provider: h.addr(b.Provider)})}, true
+				return txSpec{b.Owner, h.enc(&servicetypes.MsgWithdrawEarnedFees{Owner: h.addr(b.Owner), Provider: h.addr(b.Provider)})}, true
 			}
-			return txSpec{b.Provider, h.enc(&servicetypes.MsgSetWithdrawAddress{Owner: h.addr(b.Provider), WithdrawAddress: h.addr(h.user(t, "wa"))})}, true
+			return txSpec{b.Owner, h.enc(&servicetypes.MsgSetWithdrawAddress{Owner: h.addr(b.Owner), WithdrawAddress: h.addr(h.user(t, "wa"))})}, true
 		case a == 10:
 			b := pick(t, "binding", w.bindings)
 			if rapid.Bool().Draw(t, "disable") {
-				return txSpec{b.Provider, h.enc(&servicetypes.MsgDisableServiceBinding{ServiceName: b.Svc, Provider: h.addr(b.Provider), Owner: h.addr(b.Provider)})}, true
+				return txSpec{b.Owner, h.enc(&servicetypes.MsgDisableServiceBinding{ServiceName: b.Svc, Provider: h.addr(b.Provider), Owner: h.addr(b.Owner)})}, true
 			}
-			return txSpec{b.Provider, h.enc(&servicetypes.MsgEnableServiceBinding{ServiceName: b.Svc, Provider: h.addr(b.Provider), Deposit: coins("stake", 1), Owner: h.addr(b.Provider)})}, true
+			return txSpec{b.Owner, h.enc(&servicetypes.MsgEnableServiceBinding{ServiceName: b.Svc, Provider: h.addr(b.Provider), Deposit: coins("stake", 1), Owner: h.addr(b.Owner)})}, true
 		default:
 			b := pick(t, "binding", w.bindings)
-			return txSpec{b.Provider, h.enc(&servicetypes.MsgUpdateServiceBinding{ServiceName: b.Svc, Provider: h.addr(b.Provider), Deposit: coins("stake", int64(rapid.IntRange(1, 100).Draw(t, "dep"))), Pricing: "", QoS: 0, Options: "", Owner: h.addr(b.Provider)})}, true
+			return txSpec{b.Owner, h.enc(&servicetypes.MsgUpdateServiceBinding{ServiceName: b.Svc, Provider: h.addr(b.Provider), Deposit: coins("stake", int64(rapid.IntRange(1, 100).Draw(t, "dep"))), Pricing: "", QoS: 0, Options: "", Owner: h.addr(b.Owner)})}, true
 		}
 	case "oracle":
 		if len(w.bindings) == 0 {
@@ -862,7 +891,14 @@ func (h *hist) observe(op blockOp, resp *abci.ResponseFinalizeBlock) {
 				var price int64
 				fmt.Sscanf(x.Pricing, `{"price":"%dstake`, &price)
 				if x.ServiceName != randomtypes.ServiceName {
-					w.bindings = append(w.bindings, hBinding{x.ServiceName, tx.User, price})
+					prov := userIndex(h.n, x.Provider)
+					if prov < 0 {
+						prov = tx.User
+					}
+					w.bindings = append(w.bindings, hBinding{x.ServiceName, prov, price, tx.User})
+					if prov != tx.User {
+						w.foreignProviders++
+					}
 				} else {
 					w.seedProviders++
 				}
